@@ -58,6 +58,7 @@ func (c *vconn) Read(p []byte) (int, error) {
 		verifLock()
 		if c.closed {
 			verifUnlock()
+			verifIORead()
 			return 0, errVconnClosed
 		}
 		if len(c.rbuf) > 0 {
@@ -65,10 +66,12 @@ func (c *vconn) Read(p []byte) (int, error) {
 			c.rbuf = c.rbuf[n:]
 			c.nRead += n
 			verifUnlock()
+			verifIORead()
 			return n, nil
 		}
 		if c.eof {
 			verifUnlock()
+			verifIORead()
 			return 0, io.EOF
 		}
 		verifUnlock()
@@ -77,6 +80,7 @@ func (c *vconn) Read(p []byte) (int, error) {
 }
 
 func (c *vconn) Write(p []byte) (int, error) {
+	verifIOWrite()
 	verifLock()
 	if c.hook != nil {
 		err := c.hook.attempt(c, p, c.closed || c.eof)
@@ -147,6 +151,7 @@ func (c *vconn) Write(p []byte) (int, error) {
 }
 
 func (c *vconn) Close() error {
+	verifIOWrite()
 	verifLock()
 	c.nClose++
 	already := c.closed
@@ -164,6 +169,7 @@ func (c *vconn) Close() error {
 
 // inject makes bytes available to the client's reader.
 func (c *vconn) inject(b []byte) {
+	verifIOWrite()
 	verifLock()
 	c.rbuf = append(c.rbuf, b...)
 	c.nInjected += len(b)
@@ -173,6 +179,7 @@ func (c *vconn) inject(b []byte) {
 
 // peerClose: the broker closes the connection; the client reads EOF after buffered data.
 func (c *vconn) peerClose() {
+	verifIOWrite()
 	verifLock()
 	c.eof = true
 	verifUnlock()
